@@ -181,6 +181,21 @@ Theorem C07_achcli_roundtrip : forall fhv bhv fv v,
 Proof. exact achcli_roundtrip_final. Qed.
 Print Assumptions C07_achcli_roundtrip.
 
+(* Current source: the fields whose struct-level survival can fail (the excused list of C07_tags_ok_partial, reported
+   exactly by the checker) are all accounted for by the file-level statement: a field outside the full tree is read by
+   no record layout (and the post-processing model runs on a tree that does not contain it); the three fields the full
+   tree carries are restored (C07_roundtrip's conclusion: header options, ADV control lines); the header constants and
+   FileIDModifier follow from validity (C07_keep_from_valid); Addenda98.iatCorrectedData is the known finding. *)
+Theorem C07_tags_ok :
+  tags_ok excused T_File (start T_File) = true /\
+  forallb (fun p => inb p (problems T_File (start T_File))) excused = true /\
+  forallb (fun p => inb p hid_full || inb p full_fields || inb p valid_implied || inb p known_finding_fields) excused = true /\
+  forallb (fun p => negb (layout_reads_field p)) hid_full = true /\
+  forallb (fun p => inb p keep_fields) (valid_implied ++ known_finding_fields) = true /\
+  forallb (fun p => inb p (valid_implied ++ known_finding_fields)) keep_fields = true.
+Proof. exact excused_accounted. Qed.
+Print Assumptions C07_tags_ok.
+
 (* Non-vacuity: a generated ADV file with two batches (8 record lines) and a file with a 10-character ImmediateOrigin
    under BypassOriginValidation satisfy every hypothesis; for the latter the header's own options decide the line. *)
 Theorem C07_roundtrip_witness_adv :
